@@ -177,8 +177,11 @@ CHECKS = {
             "half-closes - is explored together with one scheduling delay (the receiver thread closes the socket under the sender). "
             "Reconnect scenario: after any outcome of the first send the peer drops the connection and comes back; the next send over the new "
             "connection of the same object is judged on its own (nothing of the earlier message may appear). A slow peer with a small receive "
-            "buffer reads only after the library closed the connection: everything reported as sent must still arrive.",
-            "Kernel answers are a model; F = 2 quick / 3 thorough deviations per execution.", "DESIGN.md 3/C10"),
+            "buffer reads only after the library closed the connection: everything reported as sent must still arrive. Twin-sender scenario: the peer "
+            "drops connection 1 and returns at once (threads of the old connection still winding down), then two application threads send one "
+            "message each over connection 2 while the socket takes single bytes / reports not writable: every schedule with <= 2 (3) delays x <= 2 "
+            "environment answers; each message must stand in the stream in one piece, in either order.",
+            "Kernel answers are a model; F = 2 quick / 3 thorough deviations per execution.", "DESIGN.md 3/C10, 7.7"),
     "C17": ("model_checking", "vrt+explore", "stateless delay- and cut-bounded exploration of two real SecsIProtocol endpoints on a virtual line + exhaustive corruption positions",
             "Two real SecsIProtocol objects (host, equipment) joined by an in-memory line; a message of 1-3 blocks is sent, answered by the other "
             "side and followed by another; every schedule with <= K delays (lines of the handshake code, byte queue and dispatcher) and <= C "
